@@ -11,6 +11,7 @@ IMPL_RUN = os.path.join(BUILD, "harness_target", "release", "impl_run")
 REPLAYS = os.path.join(ROOT, "replays")
 NPROC = 16
 GUARD = "sodiumfrp_sodium_rust_verif"
+REPO = os.environ.get("VERIF_REPO", "/repo")     # the tree under test (background soaks use a snapshot)
 
 
 def log(*a):
@@ -58,7 +59,15 @@ def tree_hash(paths, exts):
 def build_harness():
     """Rebuild impl_run from /repo's current working tree (hooks on). Always invoked."""
     hdir = os.path.join(ROOT, "harness")
-    lock_src = "/repo/Cargo.lock"
+    if REPO != "/repo":
+        import shutil
+        h2 = os.path.join(BUILD, "harness_src")
+        shutil.copytree(hdir, h2, dirs_exist_ok=True)
+        ct = open(os.path.join(hdir, "Cargo.toml")).read().replace('path = "/repo"', 'path = "%s"' % REPO)
+        with open(os.path.join(h2, "Cargo.toml"), "w") as f:
+            f.write(ct)
+        hdir = h2
+    lock_src = os.path.join(REPO, "Cargo.lock")
     if os.path.exists(lock_src):
         with open(lock_src) as f:
             src = f.read()
